@@ -346,7 +346,9 @@ func (s *Store) LinkSystemCfg(reifiers, prepopulated, nodeReifier bool) *ipld.Li
 	ls.StorageWriteOpener = s.OpenWrite
 	if prepopulated {
 		ls.KnownReifiers = map[string]linking.NodeReifier{
-			"verif-other-adl": func(_ linking.LinkContext, n datamodel.Node, _ *linking.LinkSystem) (datamodel.Node, error) { return n, nil },
+			"verif-other-adl": func(_ linking.LinkContext, n datamodel.Node, _ *linking.LinkSystem) (datamodel.Node, error) {
+				return n, nil
+			},
 		}
 	}
 	if reifiers {
@@ -355,6 +357,18 @@ func (s *Store) LinkSystemCfg(reifiers, prepopulated, nodeReifier bool) *ipld.Li
 	if nodeReifier {
 		ls.NodeReifier = unixfsnode.Reify
 	}
+	return &ls
+}
+
+// LinkSystemDerived returns a link system obtained the way callers derive
+// per-request link systems: the UnixFS reifiers are registered on a link
+// system reading from base, that value is copied, and the copy's storage is
+// replaced by s.
+func (s *Store) LinkSystemDerived(base *Store) *ipld.LinkSystem {
+	orig := base.LinkSystem(true)
+	ls := *orig
+	ls.StorageReadOpener = s.OpenRead
+	ls.StorageWriteOpener = s.OpenWrite
 	return &ls
 }
 
@@ -392,6 +406,38 @@ func ChunkedEncoders(ls *ipld.LinkSystem, max int) *ipld.LinkSystem {
 		}
 		return func(n datamodel.Node, w io.Writer) error {
 			return enc(n, pieceWriter{w, max})
+		}, nil
+	}
+	return ls
+}
+
+// FramedRawEncoders makes the encoder ls uses for raw blocks prefix every
+// block with hdr bytes (a length-and-checksum style frame), as a caller with
+// its own at-rest format for leaves would.
+func FramedRawEncoders(ls *ipld.LinkSystem, hdr int) *ipld.LinkSystem {
+	orig := ls.EncoderChooser
+	ls.EncoderChooser = func(lp datamodel.LinkPrototype) (codec.Encoder, error) {
+		enc, err := orig(lp)
+		if err != nil {
+			return nil, err
+		}
+		if clp, ok := lp.(cidlink.LinkPrototype); !ok || clp.Codec != cid.Raw {
+			return enc, nil
+		}
+		return func(n datamodel.Node, w io.Writer) error {
+			b, err := n.AsBytes()
+			if err != nil {
+				return err
+			}
+			frame := make([]byte, hdr)
+			for i := range frame {
+				frame[i] = byte(len(b) >> (8 * uint(i%4)))
+			}
+			if _, err := w.Write(frame); err != nil {
+				return err
+			}
+			_, err = w.Write(b)
+			return err
 		}, nil
 	}
 	return ls
